@@ -210,11 +210,15 @@ CHECKS = {
                      "part 'service' (added after a sub-agent's change stored the group before checking it): the same catalogue through the service's MultiMemberGroupJoin; a refused invitation must leave the group unknown to GroupInfo, and the genuine invitation accepted afterwards must be held exactly as invited, with group-specific keys"],
     ),
     "C08": dict(
-        harness="root", run="TestVerifC08", variant="sched-msg", level="model_checking", gomaxprocs=2,
-        shards={"quick": 8, "thorough": 16},
+        level="model_checking",
+        parts=[
+            dict(name="pipeline", harness="root", run="TestVerifC08", variant="sched-msg", gomaxprocs=2, shards={"quick": 8, "thorough": 16}),
+            dict(name="histories", harness="root", run="TestVerifC08b"),
+        ],
         technique="stateless model checking of the real message pipeline (processMessageLoop, addToMessageQueue, handleGroupMetadataEvent -> RegisterChainKey -> ProcessMessageQueueForDevicePK) under a controlled scheduler: all interleavings at the lock/channel operations of the queues, the message store and the group context, iterative preemption bounding",
         rule="9 (quick) / 11 scenarios: 1-3 messages of 1-2 senders arriving singly, reversed, duplicated or from two threads, chain key registered before or concurrently, window 1 or 4, optional cancellation; quiescence is read from scheduler state; states = distinct schedule prefixes, transitions = scheduling steps, traces = complete executions; classes = (scenario, delivery order / parked set) outcomes",
-        assumptions=["the secret store, protobuf and crypto code run atomically between two scheduling points (the secret store's own interleavings are C09's)",
+        assumptions=["part 'histories' (real stores, no scheduler): every order of {announcement reaches the metadata log, message 1 / 2 reach the message log, activation of the group context}; all messages must be delivered to subscribers",
+                     "the secret store, protobuf and crypto code run atomically between two scheduling points (the secret store's own interleavings are C09's)",
                      "the MessageStore is constructed without an orbit-db log behind it: entries are built by the harness, the two event emitters record what is emitted",
                      "sequentially consistent interleavings at synchronisation operations; unlock is not a preemption point"],
     ),
